@@ -8,6 +8,7 @@ node and from the run, and the schema/collection identifiers under SDL permutati
 AddSchema calls and repetition (Go map iteration order) are evaluated on the implementation by harness/ident.
 -/
 import DefraModel.Proofs.IdentCbor
+import DefraModel.Proofs.SchemaSets
 namespace Defra.Props.C13
 open Defra Defra.Ident
 
@@ -41,5 +42,42 @@ example : docBytes [([0x62], .int 1), ([0x61], .str [0x78]), ([0x63], .null)] =
     · decide
     · decide
   rw [h1, docBytes_nil_omitted]
+
+/-! ### schema sets (`Ident/SchemaSets.lean`): which types share a set identifier.  A type's identifier is a function of
+    the definitions of the members of its set (sorted by name) and of its index among them; the definitions name the
+    types they refer to, so these theorems carry over to the identifiers for any hash.  The sets the implementation
+    forms are compared with `sameSetB` on every generated type graph by `drv ident`. -/
+open Defra.SchemaSets
+
+/-- **the order of the definitions in the SDL does not matter**: the sets depend on the definitions only through
+    membership -/
+theorem schema_sets_ignore_sdl_order (g g' : G) (h : g.Perm g') (a b : Nat) : SameSet g a b ↔ SameSet g' a b :=
+  sameSet_of_same_members (fun _ => h.mem_iff) a b
+
+/-- **one call or several**: when the definitions are added in two calls — the earlier call not referring to types
+    of the later one — the types of the earlier call get the sets they get in a single call ... -/
+theorem schema_sets_of_the_earlier_call (g1 g2 : G) (hs : Split g1 g2) (a b : Nat) (ha : isNode g1 a = true) :
+    SameSet (g1 ++ g2) a b ↔ SameSet g1 a b := sameSet_first_call hs ha b
+
+/-- ... and so do the types of the later call, whose sets are computed from the later call's definitions alone
+    (relations to types that are not part of the call are dropped) -/
+theorem schema_sets_of_the_later_call (g1 g2 : G) (hs : Split g1 g2) (a b : Nat) (ha : isNode g2 a = true) :
+    SameSet (g1 ++ g2) a b ↔ SameSet g2 a b := sameSet_second_call hs ha b
+
+/-- the executable test used by the driver decides the specification wherever the closure reached its fixed point
+    (`closedB`, evaluated on every graph at run time) -/
+theorem schema_set_test_is_exact (g : G) (a b : Nat) (ha : closedB g (reachFrom g a) = true)
+    (hb : closedB g (reachFrom g b) = true) : sameSetB g a b = true ↔ SameSet g a b := sameSetB_iff ha hb
+
+/-! non-vacuity: the graph of the repaired defects — a circle Bee(1) -> Dog(3) -> Cat(2) -> Bee and Ant(0) referring
+    to two of its members: the circle is one set, Ant is alone; and the split `circle, then Ant` meets `Split` -/
+example :
+    let circle : G := [⟨1, [3]⟩, ⟨3, [2]⟩, ⟨2, [1]⟩]
+    let ant : G := [⟨0, [3, 1]⟩]
+    allClosedB (circle ++ ant) = true ∧ setOf (circle ++ ant) 1 = [1, 3, 2] ∧ setOf (circle ++ ant) 0 = [0] ∧
+    setOf circle 1 = [1, 3, 2] := by decide
+
+example : Split [⟨1, [3]⟩, ⟨3, [2]⟩, ⟨2, [1]⟩] [⟨0, [3, 1]⟩] :=
+  ⟨by decide, by decide⟩
 
 end Defra.Props.C13
